@@ -6,7 +6,7 @@ use proptest::test_runner::{Config, RngSeed, TestRunner};
 
 use crate::{catch, Args, Report};
 
-fn check_all(xs: &[i64], p: f64, filtered: bool) -> Result<(), String> {
+pub fn check_all(xs: &[i64], p: f64, filtered: bool) -> Result<(), String> {
    let mut sorted = xs.to_vec();
    sorted.sort();
    let n = xs.len();
